@@ -50,14 +50,22 @@ def check_align(prog: Program, res: Result) -> None:
     if len(dicts) != 1:
         return
     ex = dicts[0].targets[0].id
+    # per-frame lists: appended to in the batch loop
+    lists = {c.func.value.id for c in astq.method_calls(inner, "append") if isinstance(c.func.value, ast.Name)}
     feeds: Dict[str, str] = {}
+
+    def _feed(key, v, at):
+        nm = astq.names_in(astq.expand_at(fn, v, at, keep=lists)) & lists
+        if len(nm) == 1:
+            feeds.setdefault(key, next(iter(nm)))
+
     for k, v in zip(dicts[0].value.keys, dicts[0].value.values):
-        if isinstance(k, ast.Constant) and isinstance(v, ast.Name):
-            feeds[k.value] = v.id
+        if isinstance(k, ast.Constant):
+            _feed(k.value, v, dicts[0])
     for st in walk_function(fn):  # ex["instances"] = instances
         if isinstance(st, ast.Assign) and isinstance(st.targets[0], ast.Subscript) and norm(st.targets[0].value) == ex \
-                and isinstance(st.targets[0].slice, ast.Constant) and isinstance(st.value, ast.Name):
-            feeds.setdefault(st.targets[0].slice.value, st.value.id)
+                and isinstance(st.targets[0].slice, ast.Constant) and st.targets[0].slice.value not in feeds:
+            _feed(st.targets[0].slice.value, st.value, st)
     res.ob(R, {"image", "frame_idx", "video_idx", "orig_size", "eff_scale"} <= set(feeds), fi.qualname, "batch dict carries image and its indices",
            f"the batch dict lacks {sorted({'image', 'frame_idx', 'video_idx', 'orig_size', 'eff_scale'} - set(feeds))}", fi.where)
     tests = [n for n in ast.walk(inner) if isinstance(n, ast.If) and astq.is_none_test(n.test) is not None and item in astq.names_in(n.test)]
